@@ -881,6 +881,8 @@ type c13Witness struct {
 	Mode  string            `json:"mode"`
 	Mut   c13Mut            `json:"mutation"`
 	Files map[string]string `json:"files"`
+	// othersOnDisk: the caller has already written every file but Mut.File to the file set
+	othersOnDisk bool
 }
 
 // c13Exercise loads one (possibly malformed) file set through every loader and,
@@ -888,7 +890,7 @@ type c13Witness struct {
 func c13Exercise(r *vkit.Run, wit *c13Witness, fs *fileSet, hosts []string) (singleErr error, l *c13Loaded) {
 	desc := func() interface{} { return wit }
 	for _, n := range c13FileNames {
-		if n == wit.Mut.File && wit.Mut.Absent {
+		if n == wit.Mut.File && wit.Mut.Absent || n != wit.Mut.File && wit.othersOnDisk {
 			continue
 		}
 		fs.write(n, wit.Files[n])
@@ -988,7 +990,7 @@ func truncStr(s string, n int) string {
 }
 
 func c13(r *vkit.Run) {
-	r.SetRule("worlds = complete file sets (host_rule, vip_rule, route_rule incl. BasicRule, cluster_conf, gslb, cluster_table) generated from the documented formats: every documented optional field present with p=2/3 and a documented value (Protocol http|fcgi, Schem http|tcp as in the examples, StatusCode 100-599, HashStrategy 0-2 with HashHeader whenever the strategy uses the client id, BalanceMode WRR, gslb weights summing to 100 incl. GSLB_BLACKHOLE, >=1 backend with positive weight per sub-cluster), conditions from a list of documented expressions, half of the worlds with basic rules targeting ADVANCED_MODE. (a) each world must be accepted by LoadServerDataConf and BalTable.Init. (b) one reference of a world is broken (rule cluster, rule product, default product, vip product, gslb cluster without cluster_table entry, cluster dropped from cluster_conf); if the loaders accept, the structures they parsed are walked for dangling references. (c) one file of a world gets 1-3 structure-aware mutations (null, wrong type, boundary numbers, deleted/duplicated/renamed keys, retargeted strings, grown/emptied containers, replaced root) and in 1/5 of the cases a byte-level corruption (truncate, delete byte, stray token, empty, 20000-deep nesting, doubled), 1/40 absent file; the single loader, LoadServerDataConf, BalTable.Init and - when accepted - a few Lookup/Balance calls run under recover. Module rule files: see rule_module_rule_files. Non-trivial = (b) every case, (c) well-formed JSON that differs from the original; distinct = file contents." + c13XrefRule)
+	r.SetRule("worlds = complete file sets (host_rule, vip_rule, route_rule incl. BasicRule, cluster_conf, gslb, cluster_table) generated from the documented formats: every documented optional field present with p=2/3 and a documented value (Protocol http|fcgi, Schem http|tcp as in the examples, StatusCode 100-599, HashStrategy 0-2 with HashHeader whenever the strategy uses the client id, BalanceMode WRR, gslb weights summing to 100 incl. GSLB_BLACKHOLE, >=1 backend with positive weight per sub-cluster), conditions from a list of documented expressions, half of the worlds with basic rules targeting ADVANCED_MODE. (a) each world must be accepted by LoadServerDataConf and BalTable.Init. (b) one reference of a world is broken (rule cluster, rule product, default product, vip product, gslb cluster without cluster_table entry, cluster dropped from cluster_conf); if the loaders accept, the structures they parsed are walked for dangling references. (c) one file of a world gets 1-3 structure-aware mutations (null, wrong type, boundary numbers, deleted/duplicated/renamed keys, retargeted strings, grown/emptied containers, replaced root) and in 1/5 of the cases a byte-level corruption (truncate, delete byte, stray token, empty, 20000-deep nesting, doubled), 1/40 absent file; the single loader, LoadServerDataConf, BalTable.Init and - when accepted - a few Lookup/Balance calls run under recover. Module rule files: see rule_module_rule_files. Non-trivial = (b) every case, (c) well-formed JSON that differs from the original; distinct = file contents." + c13XrefRule + c13NullRule)
 	r.Assume("'documented format' is the grammar above, derived from docs/en_us/configuration/** and docs/zh_cn/introduction/route.md; BasicRule's JSON shape (Hostname[], Path[], ClusterName) is taken from the loader's struct because no document shows it")
 	if r.Replay != "" {
 		if c13ModReplay(r) { // witness of a module rule file (c13mod.go)
@@ -1009,6 +1011,7 @@ func c13(r *vkit.Run) {
 		switch w.Mode {
 		case "totality":
 			c13Exercise(r, &w, fs, []string{"a.x.com", "example.org"})
+			c13ExerciseMore(r, &w, fs)
 		default:
 			c13WriteAll(fs, w.Files)
 			var l *c13Loaded
@@ -1071,6 +1074,7 @@ func c13(r *vkit.Run) {
 			r.Inconclusive("no mutated " + n + " was rejected: mutator too weak")
 		}
 	}
-	c13XrefFamily(r) // one broken cross-reference among many valid siblings, K loads each (c13xref.go)
-	c13Modules(r)    // module rule files (c13mod.go)
+	c13XrefFamily(r)     // one broken cross-reference among many valid siblings, K loads each (c13xref.go)
+	c13NullCoreFamily(r) // enumerated whole-document / member replacements, every entry point (c13null.go)
+	c13Modules(r)        // module rule files (c13mod.go)
 }
